@@ -1257,4 +1257,21 @@ def offsetFirst (n m : Nat) (rows : List (Option Nat × β)) : List (Option Nat 
 
 end Page
 
+/-! ## u64 columns -/
+
+/-- On values that both read as u64 — `Int64 ≥ 0`, `Timestamp ≥ 0`, or a string that parses as
+    u64, which is how the engine carries u64 values above `i64::MAX` — `compare` is the order of
+    the readings as natural numbers. No bound on the readings enters. -/
+theorem compare_of_asU64 (a b : SV) (x y : Nat) (ha : a.asU64 = some x) (hb : b.asU64 = some y) :
+    SV.compare a b = compare x y := by
+  unfold SV.compare
+  rw [ha, hb]
+
+theorem compare_tpo_u64 : TPO SV.compare (fun v => ∃ u, v.asU64 = some u) := by
+  refine tpo_of_key (fun v => ((v.asU64.getD 0 : Nat) : Int)) ?_
+  rintro a b ⟨x, hx⟩ ⟨y, hy⟩
+  rw [compare_of_asU64 a b x y hx hy, hx, hy, ncmp, icmp]
+  simp only [Option.getD_some]
+  split <;> split <;> (try split) <;> (try split) <;> simp_all <;> omega
+
 end Snel.Order
